@@ -27,6 +27,9 @@ static std::string escape(const std::string& w, int style) {
    case 0: for (char c : w) { if (special(c)) o += '\\'; o += c; } return o;
    case 1: o = "\""; for (char c : w) { if (c == '"' || c == '\\') o += '\\'; o += c; } return o + "\"";
    case 2: o = "'"; for (char c : w) { if (c == '\'' || c == '\\') o += '\\'; o += c; } return o + "'";
+   // over-escaping: inside quotes EVERY special character gets a backslash (the other kind of quote and the blank would not need one)
+   case 4: o = "\""; for (char c : w) { if (special(c)) o += '\\'; o += c; } return o + "\"";
+   case 5: o = "'"; for (char c : w) { if (special(c)) o += '\\'; o += c; } return o + "'";
    default: { bool q = false; for (size_t i = 0; i < w.size(); ++i) { char c = w[i]; if (i % 2 == 0) { if (special(c)) o += '\\'; o += c; } else { o += '"'; if (c == '"' || c == '\\') o += '\\'; o += c; o += '"'; } } (void)q; return o; }
    }
 }
@@ -65,10 +68,13 @@ static void part1() {
          if ((idx % 512) == 0) { mine = vf::want_case(); if (mine) vf::note("quoting lists of " + std::to_string(n) + " words"); }
          if (!mine) continue;
          std::vector<std::string> words; uint64_t r = idx; for (int i = 0; i < n; ++i) { words.push_back(pool[r % pool.size()]); r /= pool.size(); }
-         vf::Odometer st(std::vector<unsigned>(n, 4));
+         vf::Odometer st(std::vector<unsigned>(n, n == 1 ? 6u : 4u));      // single words also in the two over-escaping styles
          while (st.next()) { std::vector<int> styles; for (int i = 0; i < n; ++i) styles.push_back(int(st[i])); quoting_case(words, styles); }
       }
    }
+   // two-word lists over words of <= 2 characters with every combination of the 6 styles (the over-escaping ones included)
+   { bool mine = false; uint64_t k = 0; for (auto& a : small) for (auto& b : small) { if ((k++ % 64) == 0) { mine = vf::want_case(); if (mine) vf::note("quoting two words, 6 styles"); } if (!mine) continue;
+        for (int sa = 0; sa < 6; ++sa) for (int sb = 0; sb < 6; ++sb) { if (sa < 4 && sb < 4) continue; quoting_case({a, b}, {sa, sb}); } } }
    vf::sample("quoting: word list ['a b', '\\'\"', '\\\\'] in 4^3 escape styles, with and without program name");
 }
 
